@@ -300,6 +300,9 @@ class Ev:
                 return ("fn", op.fn())
             if op.promoted() is not None:
                 return self.promoted_val(op.promoted())
+            if op.j.get("tuple"):
+                # a named constant of tuple type (`const EMPTY_LEVEL: (Vol, OrderCount) = (0, 0)`): the tuple of its field values
+                return ("agg", "tuple", "", tuple(("const", f["ty"], f["bits"], int(f["bits"])) for f in op.j["tuple"]), ())
             return ("const", op.const_ty(), op.const_str(), op.const_int())
         return ("unk", "operand")
 
